@@ -16,8 +16,14 @@ Checks per case:
         scaled by the exactly bounded ||A^-1||;
   (v)   CORRESPONDENCE, bitwise: extracted MonoModel.glam_backtransform (float store + cumulative-sum loop with the code's
         index arithmetic) applied to the captured NNLS solution == the coefficients the real fit returned;
-  (vi)  CORRESPONDENCE: the captured T-basis system == L' A L, L' r with (A, r) the captured B-basis system of the
-        unconstrained fit and L the cumulative-sum operator along monodim (C10_tspline_basis), exact rationals + tolerance."""
+  (vi)  CORRESPONDENCE of C10_tsystem_is_congruence / C10_tsystem_operator with the code (after fix F28_1 of D28):
+        (vi-a) for ndim >= 2, every dimension k with non-zero smoothing: calc_penalty(k, monodim) == L' calc_penalty(k, none) L
+               (both called directly), (vi-b) the captured T-basis system == L' A L, L' r with (A, r) the captured B-basis system of
+               the unconstrained fit (data term and EVERY penalty term) and L the cumulative-sum operator along monodim; exact
+               rationals, tolerance 2^-36 * scale. A disagreement that has the exact form of the old defect
+               (A_T = L'(A - P_other)L + P_other, or calc_penalty(k, monodim) == calc_penalty(k, none) for k != monodim) is reported
+               under the old finding's signature C10:inactive:other-dimension-penalty-applied-to-increments (status fixed: hard
+               violation); corpus/C10/k1_other_dim_penalty.json (the old witness) runs first on every invocation."""
 import os, sys, json, time, hashlib, subprocess, math, select, threading
 from fractions import Fraction as Fr
 from multiprocessing import Pool
@@ -31,7 +37,8 @@ ASSUMPTIONS = [
     "nnls_normal_block3 is represented by NnlsModel.block3 (C11): x >= 0 on every exit is C11_block3_nonneg; here the real solver's output is checked >= 0 exactly on every captured system",
     "the IEEE theorem (C10_cumsum_monotone_ieee) is about Flocq's Bplus on binary32 with round-to-nearest-even; that gcc's `float += float` (SSE addss, FLT_EVAL_METHOD 0) is that operation is assumed; the extracted model is executed with binary64 additions re-rounded to binary32 (innocuous double rounding for one addition, 53 >= 2*24+2) and compared bitwise with the real coefficients",
     "no-overflow / no-NaN are explicit hypotheses of the rounding theorems (finite results); generated data stay far from the binary32 range limits",
-    "CHOLMOD's ssmult/transpose/tril are the mathematical matrix operations (C10_tspline_basis is about dense list matrices); tied by check (vi) on the captured systems",
+    "CHOLMOD's ssmult/transpose/tril/copy/add are the mathematical matrix operations on dense list matrices (C10_tspline_basis, MonoFitModel.fit_system_mono; the symmetric-triangle storage that calc_penalty switches off while two Kronecker factors are non-diagonal is not modelled); tied by check (vi) on calc_penalty's output and on the captured systems",
+    "C10_inactive_fit_returns_unconstrained is about exact arithmetic, an exact KKT point and the back-transformation written as matvec Lbig; that matvec Lbig is the cumulative-sum loop for every shape is not proved (evaluated on an instance in Properties_C10.v, C10_tspline_basis in one dimension; the python oracle of (vi) uses cumulative/suffix sums along monodim and agrees with the code), positive definiteness of the T-basis matrix is a hypothesis (certified exactly per case in (iv))",
     "surface monotonicity is stated through de Boor's derivative formula (BSpline.dBfun); that the formula is the derivative is C02_piece_derivative_formula / C02_formula_is_the_derivative",
     "knot vectors with distinct knots (repeated knots, which the fitter's bspline() handles since fix 33ef56f, are exercised by C09 and C17, not here); orders 1..4; well-posed (certified nonsingular) normal equations for the inactive-constraint check",
     "fits are run with OMP_NUM_THREADS=1/GOTO_NUM_THREADS=1 under a progress watchdog (walk_descents can lose a wake-up: C12/D7)",
@@ -455,42 +462,90 @@ def analyse(args):
     if not want_exact or x is None or "nnls.A" not in o:
         return c["id"], fails, st
     AT = mat_of(o["nnls.A"]); rT = [dfrom(int(h, 16)) for h in o["nnls.r"][1:]]
+    nonfin = [(i, j) for i, row in enumerate(AT) for j, v in enumerate(row) if v != v or abs(v) == math.inf] + \
+             [(i, -1) for i, v in enumerate(rT) if v != v or abs(v) == math.inf]
+    for k in range(nd):
+        for tag in ("pen.%d" % k, "penT.%d" % k):
+            if tag in o and any(v != v or abs(v) == math.inf for row in mat_of(o[tag]) for v in row):
+                nonfin.append((tag, k))
+    if nonfin:
+        fails.append(("C10:tsystem:non-finite-entry", "the normal system handed to nnls_normal_block3 (or a penalty matrix from calc_penalty) has a NaN/infinite entry at %s although all inputs are finite"
+                      % (nonfin[0],), {"where": [list(map(str, w)) for w in nonfin[:5]]}))
+        return c["id"], fails, st
     have_free = "free.A" in o and o.get("free.coef", ["1"])[0] == "0"
-    # penalty terms of the other dimensions (B-basis, as the code builds them: NOT transformed to the T-basis)
+    # penalty terms of the other dimensions with non-zero smoothing (B-basis copies from calc_penalty without a monotonic dimension):
+    # only used to recognise the signature of the old defect D28 (fixed by F28_1: these terms were added WITHOUT the change of basis)
     others = [k for k in range(nd) if k != md and c["dims"][k]["smooth"] != 0.0 and ("pen.%d" % k) in o]
     st["other_dim_penalty"] = bool(others)
+    d28 = False
+    D28 = "C10:inactive:other-dimension-penalty-applied-to-increments"
     ABf = None
     if have_free:
         AB = mat_of(o["free.A"]); rB = [dfrom(int(h, 16)) for h in o["free.r"][1:]]
         ABf = [[Fr(v) for v in row] for row in AB]
-        Pother = [[Fr(0)] * n for _ in range(n)]
-        for k in others:
-            lam = Fr(c["dims"][k]["smooth"])
-            Pk = mat_of(o["pen.%d" % k])
-            for i in range(n):
-                Pi = Pk[i]; Po = Pother[i]
-                for j in range(n):
-                    if Pi[j] != 0.0:
-                        Po[j] += lam * Fr(Pi[j])
         def transform(M):
             ML = [sufs_along(row, naxes, md) for row in M]                                       # M L  (row-wise suffix sums)
             cols = [sufs_along([ML[i][j] for i in range(n)], naxes, md) for j in range(n)]       # column j of L' (M L)
             return [[cols[j][i] for j in range(n)] for i in range(n)]
-        core = [[ABf[i][j] - Pother[i][j] for j in range(n)] for i in range(n)]
-        expect = transform(core)                                   # what the code forms: L'(F + lam_md P_md)L + sum_{k != md} lam_k P_k
-        expect = [[expect[i][j] + Pother[i][j] for j in range(n)] for i in range(n)]
+        def worst_diff(expect, got):
+            worst, wij = Fr(0), None
+            for i in range(n):
+                ei, gi = expect[i], got[i]
+                for j in range(n):
+                    dlt = abs(ei[j] - Fr(gi[j]))
+                    if dlt > worst:
+                        worst, wij = dlt, (i, j)
+            return worst, wij
+        # (vi-a) term by term: calc_penalty(k, monodim) == L' calc_penalty(k, none) L  (L = cumulative sum along monodim), every k
+        st["pen_terms_checked"] = 0
+        for k in range(nd):
+            if ("pen.%d" % k) not in o or ("penT.%d" % k) not in o:
+                continue
+            PkB = mat_of(o["pen.%d" % k]); PkT = mat_of(o["penT.%d" % k])
+            PkBf = [[Fr(v) for v in row] for row in PkB]
+            expk = transform(PkBf)
+            sck = max(max(row) for row in transform([[abs(v) for v in row] for row in PkBf])) or Fr(1)
+            wk, wkij = worst_diff(expk, PkT)
+            st["pen_terms_checked"] += 1
+            st["pen_term_rel"] = max(st.get("pen_term_rel", 0.0), float(wk / sck))
+            if wk > sck * Fr(1, 2 ** 36):
+                if k != md and PkT == PkB:
+                    d28 = True
+                    fails.append((D28, "calc_penalty for dimension %d of a fit that is monotonic along dimension %d returns the B-basis matrix (identity in the monodim slot of the "
+                                  "Kronecker product) instead of L' P L: entry %s differs by %.3g (scale %.3g)" % (k, md, wkij, float(wk), float(sck)),
+                                  {"dim": k, "entry": wkij, "diff": float(wk), "scale": float(sck)}))
+                else:
+                    fails.append(("C10:tsystem:penalty-term-not-transformed", "calc_penalty for dimension %d (monodim %d) differs from L' P_%d L at %s by %.3g (scale %.3g)"
+                                  % (k, md, k, wkij, float(wk), float(sck)), {"dim": k, "entry": wkij, "diff": float(wk), "scale": float(sck)}))
+        # (vi-b) the captured system: A_T == L' A_B L with A_B the whole B-basis normal matrix (data term and EVERY penalty term)
+        expect = transform(ABf)
         scale_m = transform([[abs(v) for v in row] for row in ABf])
         scale = max(max(row) for row in scale_m) or Fr(1)
         tol = scale * Fr(1, 2 ** 36)
-        worst = Fr(0); wij = None
-        for i in range(n):
-            for j in range(n):
-                dlt = abs(expect[i][j] - Fr(AT[i][j]))
-                if dlt > worst:
-                    worst, wij = dlt, (i, j)
+        worst, wij = worst_diff(expect, AT)
         st["tsys_rel"] = float(worst / scale)
         if worst > tol:
-            fails.append(("C10:tsystem:matrix-not-the-transformed-system", "captured T-basis normal matrix differs from L'(A - P_other)L + P_other at %s by %.3g (scale %.3g)" % (wij, float(worst), float(scale)),
+            sig = "C10:tsystem:matrix-not-the-transformed-system"
+            oldform = False
+            if others:
+                # the old defect's exact form: A_T = L'(A_B - P_other)L + P_other
+                Pother = [[Fr(0)] * n for _ in range(n)]
+                for k in others:
+                    lam = Fr(c["dims"][k]["smooth"])
+                    Pk = mat_of(o["pen.%d" % k])
+                    for i in range(n):
+                        Pi = Pk[i]; Po = Pother[i]
+                        for j in range(n):
+                            if Pi[j] != 0.0:
+                                Po[j] += lam * Fr(Pi[j])
+                oldf = transform([[ABf[i][j] - Pother[i][j] for j in range(n)] for i in range(n)])
+                oldf = [[oldf[i][j] + Pother[i][j] for j in range(n)] for i in range(n)]
+                wo, _ = worst_diff(oldf, AT)
+                if wo <= tol:
+                    d28 = oldform = True
+                    sig = D28
+            fails.append((sig, "captured T-basis normal matrix differs from L' A L (A = normal matrix of the unconstrained fit) at %s by %.3g (scale %.3g)%s"
+                          % (wij, float(worst), float(scale), "; it equals L'(A - P_other)L + P_other: the other dimensions' penalty terms are not in the T-basis" if oldform else ""),
                           {"entry": wij, "diff": float(worst), "scale": float(scale)}))
         rl = sufs_along([Fr(v) for v in rB], naxes, md)
         rla = sufs_along([abs(Fr(v)) for v in rB], naxes, md)
@@ -508,6 +563,8 @@ def analyse(args):
     normA = max(sum(abs(v) for v in row) for row in ATf)
     kappa = normA * ninv
     st["kappa"] = float(kappa)
+    if any(v != v or abs(v) == math.inf for v in x):
+        return c["id"], fails, st          # NaN/inf from the solver on a certified non-singular system: already reported by (ii)
     xf = [Fr(v) for v in x]
     zmax = max(abs(v) for v in z) if z else Fr(0)
     rmax = max([abs(v) for v in rTf] + [Fr(0)])
@@ -541,8 +598,8 @@ def analyse(args):
                 dm = max(abs(Fr(a) - b) for a, b in zip(coef, cstar))
                 st["mono_vs_unconstrained_rel"] = float(dm / cmax)
                 if dm > tolc:
-                    if others:
-                        sig = "C10:inactive:other-dimension-penalty-applied-to-increments"
+                    if d28:
+                        sig = D28
                     elif maxiter:
                         sig = "C11:block3-maxiter-exit-not-kkt"
                     else:
@@ -623,6 +680,13 @@ def process(cases, exe_i, exe_m, pool, out, cov, exact_limit):
         if st.get("tsys_rel") is not None:
             cov["tsys_checked"] += 1
             cov["tsys_worst_rel"] = max(cov["tsys_worst_rel"], st["tsys_rel"])
+        if st.get("pen_terms_checked"):
+            cov["pen_terms_checked"] = cov.get("pen_terms_checked", 0) + st["pen_terms_checked"]
+            cov["pen_term_worst_rel"] = max(cov.get("pen_term_worst_rel", 0.0), st.get("pen_term_rel", 0.0))
+        if st.get("other_dim_penalty") and st.get("tsys_rel") is not None:
+            cov["tsys_checked_with_other_dim_smoothing"] = cov.get("tsys_checked_with_other_dim_smoothing", 0) + 1
+        if st.get("inactive") and st.get("other_dim_penalty"):
+            cov["inactive_with_other_dim_smoothing"] = cov.get("inactive_with_other_dim_smoothing", 0) + 1
         if st.get("inactive_dist_rel") is not None:
             cov["inactive_worst_rel"] = max(cov["inactive_worst_rel"], st["inactive_dist_rel"])
         if len(cov["samples"]) < 3 and nontrivial:
